@@ -194,6 +194,7 @@ func runC15(b *Batch) {
 			continue
 		}
 		c15Case(b, i)
+		collectGarbage(i)
 	}
 	nc := b.Pick(256, 8000) / b.NBatches
 	for i := 0; i < nc; i++ {
